@@ -126,6 +126,10 @@ func (r *Runner) mismatch(c *caseCtx, prop, kind, want, got string, idExtra stri
 	}
 	r.res.UnknownN[prop]++
 	if r.res.UnknownN[prop] <= int64(r.capN) {
+		if gb, err := json.Marshal(c.it.G); err == nil && len(gb) < 20000 {
+			m.GJSON = string(gb)
+		}
+		m.RawIn = hex.EncodeToString([]byte(c.input))
 		r.res.Unknown = append(r.res.Unknown, m)
 	}
 }
@@ -418,7 +422,9 @@ func (r *Runner) checkAST(c *caseCtx, v spec.VariantStatus, o *obs.Obs, ref *ri.
 		return
 	}
 	if o.OK && ref.OK {
-		if isPlain {
+		// the token stream, action trace and tree are compared with the reference for every option
+		// set (the properties are not limited to the default options)
+		{
 			// ---- C03 token stream
 			r.eval("C03", ref.DiscTok > 0, vkey, sample)
 			if got, wantS := normActions(tokStr(o.Toks)), normActions(riTokStr(ref.Toks)); got != wantS {
